@@ -39,9 +39,9 @@ structure Cfg where
 
 /-- the code in /repo now (regenerated flags) -/
 def Cfg.current : Cfg := ⟨LexerCfg.emitSkipped, LexerCfg.textTagStepBack⟩
-/-- the code as found (finding F1 present) -/
+/-- the code before ac8bd37 (finding F1 present) – history -/
 def Cfg.asFound : Cfg := ⟨false, false⟩
-/-- the code with both proposed patches -/
+/-- the code with the F1 repair (ac8bd37) -/
 def Cfg.fixed : Cfg := ⟨true, true⟩
 
 /-! ## tokens, state, results -/
@@ -415,13 +415,15 @@ structure TagItems where
   selfClose : Bool
   deriving DecidableEq, Repr
 
-/-- the attribute region and closer of the tag regex,
-    `((?:\s+\w+|\s*=\s*|"[^"]*?"|'[^']*?'|\s*,\s*)*)\s*(/)?>` (flags I|S|X), scanned from the end of the keyword.
-    Each item is decided by the first non-`\s` character after a maximal `\s` run: a word character needs a
-    non-empty run before it; `=`/`,` always fit (their trailing `\s*` is left to the next item, which is
-    equivalent); a quote must follow directly (empty run) or follow `=`/`,` (whose `\s*` then takes the run), and
-    its value ends at the next quote of the same kind; `>` or `/>` ends the tag; anything else fails.  No other
-    decomposition of the same text into items reaches a different end (validated exhaustively, DESIGN §1). -/
+/-- the attribute region and closer of the tag regex, scanned from the end of the keyword.  Since 836bb3b:
+    `((?:\s+\w+|\s*[=,](?:\s+(?=["']))?|"[^"]*"|'[^']*')*)\s*(/)?>` (flags I|S|X); before:
+    `((?:\s+\w+|\s*=\s*|"[^"]*?"|'[^']*?'|\s*,\s*)*)\s*(/)?>`.  Both accept the same strings with the same end
+    (compared on all 3 257 437 strings of ≤ 6 tokens, and by the per-matcher stream on every run); the new one has
+    exactly one consumer per whitespace run, which is literally the decision procedure below:
+    each item is decided by the first non-`\s` character after a maximal `\s` run: a word character needs a
+    non-empty run before it; `=`/`,` always fit (trailing whitespace is taken only in front of a quote, i.e. left
+    to the next item otherwise); a quote must follow directly (empty run) or follow `=`/`,`, and its value ends
+    at the next quote of the same kind; `>` or `/>` ends the tag; anything else fails. -/
 def tagItems : Nat → Str → Nat → Bool → Option TagItems
   | 0, _, _, _ => none
   | fuel + 1, l, off, prevSep =>
